@@ -142,3 +142,183 @@ pub fn isolated(timeout: Duration, f: impl FnOnce() -> Vec<u8>) -> Outcome {
 pub fn encode_stats(opened: u8, panic: Option<&str>, mem: MemStats, cpu_ms: u64, big_func: &str) -> Vec<u8> {
     serde_json::to_vec(&serde_json::json!({"opened": opened, "panic": panic, "peak": mem.peak, "max_request": mem.max_request, "cpu_ms": cpu_ms, "big_func": big_func})).unwrap_or_default()
 }
+
+// ---------------------------------------------------------------------------------------------
+// persistent worker: fork once, run many cases
+
+/// A forked copy of this process that runs one case after the other. It dies only when a case
+/// kills it (allocation refused -> abort, stack overflow) or when the parent kills it (hang); the
+/// caller then spawns a new one. Much cheaper than a fork per case (fork of a multi-threaded
+/// process serialises on the address-space lock).
+pub struct Worker {
+    pid: i32,
+    to: i32,
+    from: i32,
+}
+
+const FRAME: u8 = 0x02;
+
+impl Worker {
+    pub fn spawn(run: fn(&[u8]) -> Vec<u8>) -> Option<Worker> {
+        let mut down = [0i32; 2];
+        let mut up = [0i32; 2];
+        unsafe {
+            if libc::pipe(down.as_mut_ptr()) != 0 {
+                return None;
+            }
+            if libc::pipe(up.as_mut_ptr()) != 0 {
+                libc::close(down[0]);
+                libc::close(down[1]);
+                return None;
+            }
+        }
+        let pid = unsafe { libc::fork() };
+        if pid < 0 {
+            unsafe {
+                for fd in [down[0], down[1], up[0], up[1]] {
+                    libc::close(fd);
+                }
+            }
+            return None;
+        }
+        if pid == 0 {
+            // child: keep only its two pipe ends (other workers' pipes must not be held open here,
+            // or their deaths would not show as end-of-file to the parent)
+            unsafe {
+                for fd in 3..4096 {
+                    if fd != down[0] && fd != up[1] {
+                        libc::close(fd);
+                    }
+                }
+                REPORT_FD = up[1];
+                let lim = libc::rlimit { rlim_cur: 0, rlim_max: 0 };
+                libc::setrlimit(libc::RLIMIT_CORE, &lim);
+                let devnull = libc::open(b"/dev/null\0".as_ptr() as *const libc::c_char, libc::O_WRONLY);
+                if devnull >= 0 {
+                    libc::dup2(devnull, 2);
+                }
+            }
+            let read_exact = |buf: &mut [u8]| -> bool {
+                let mut off = 0;
+                while off < buf.len() {
+                    let n = unsafe { libc::read(down[0], buf[off..].as_mut_ptr() as *mut libc::c_void, buf.len() - off) };
+                    if n <= 0 {
+                        return false;
+                    }
+                    off += n as usize;
+                }
+                true
+            };
+            loop {
+                let mut len = [0u8; 4];
+                if !read_exact(&mut len) {
+                    unsafe { libc::_exit(0) };
+                }
+                let mut input = vec![0u8; u32::from_le_bytes(len) as usize];
+                if !read_exact(&mut input) {
+                    unsafe { libc::_exit(0) };
+                }
+                let out = run(&input);
+                let mut frame = vec![FRAME];
+                frame.extend_from_slice(&(out.len() as u32).to_le_bytes());
+                frame.extend_from_slice(&out);
+                let mut off = 0;
+                while off < frame.len() {
+                    let n = unsafe { libc::write(up[1], frame[off..].as_ptr() as *const libc::c_void, frame.len() - off) };
+                    if n <= 0 {
+                        unsafe { libc::_exit(0) };
+                    }
+                    off += n as usize;
+                }
+            }
+        }
+        unsafe {
+            libc::close(down[0]);
+            libc::close(up[1]);
+            let flags = libc::fcntl(up[0], libc::F_GETFL);
+            libc::fcntl(up[0], libc::F_SETFL, flags | libc::O_NONBLOCK);
+        }
+        Some(Worker { pid, to: down[1], from: up[0] })
+    }
+
+    fn reap(&mut self, kill: bool) -> i32 {
+        let mut status = 0i32;
+        unsafe {
+            if kill {
+                libc::kill(self.pid, libc::SIGKILL);
+            }
+            libc::waitpid(self.pid, &mut status, 0);
+            libc::close(self.to);
+            libc::close(self.from);
+        }
+        self.pid = -1;
+        status
+    }
+
+    pub fn alive(&self) -> bool {
+        self.pid > 0
+    }
+
+    /// run one case; after anything but `Completed` the worker is dead
+    pub fn run(&mut self, input: &[u8], timeout: Duration) -> Outcome {
+        if !self.alive() {
+            return Outcome::Failed("worker is dead".into());
+        }
+        let mut msg = (input.len() as u32).to_le_bytes().to_vec();
+        msg.extend_from_slice(input);
+        let mut off = 0;
+        while off < msg.len() {
+            let n = unsafe { libc::write(self.to, msg[off..].as_ptr() as *const libc::c_void, msg.len() - off) };
+            if n <= 0 {
+                self.reap(true);
+                return Outcome::Failed("cannot send the case to the worker".into());
+            }
+            off += n as usize;
+        }
+        let started = Instant::now();
+        let mut buf: Vec<u8> = Vec::new();
+        let mut chunk = [0u8; 65536];
+        loop {
+            let n = unsafe { libc::read(self.from, chunk.as_mut_ptr() as *mut libc::c_void, chunk.len()) };
+            if n > 0 {
+                buf.extend_from_slice(&chunk[..n as usize]);
+                if buf[0] == FRAME && buf.len() >= 5 {
+                    let len = u32::from_le_bytes([buf[1], buf[2], buf[3], buf[4]]) as usize;
+                    if buf.len() >= 5 + len {
+                        return Outcome::Completed(buf[5..5 + len].to_vec());
+                    }
+                }
+                continue;
+            }
+            if n == 0 {
+                // end of file: the worker is gone
+                let status = self.reap(false);
+                let signal = if libc::WIFSIGNALED(status) { libc::WTERMSIG(status) } else { -libc::WEXITSTATUS(status) };
+                let text = String::from_utf8_lossy(&buf);
+                let refused = text.lines().find_map(|l| {
+                    let l = l.trim_start_matches('\u{1}');
+                    let rest = l.strip_prefix("REFUSED ")?;
+                    let (size, rest) = rest.split_once(' ')?;
+                    let (live, func) = rest.split_once(' ')?;
+                    Some((size.parse().ok()?, live.parse().ok()?, func.to_string()))
+                });
+                return Outcome::Died { signal, refused };
+            }
+            // would block
+            if started.elapsed() > timeout {
+                self.reap(true);
+                return Outcome::Timeout;
+            }
+            let mut pfd = libc::pollfd { fd: self.from, events: libc::POLLIN, revents: 0 };
+            unsafe { libc::poll(&mut pfd, 1, 20) };
+        }
+    }
+}
+
+impl Drop for Worker {
+    fn drop(&mut self) {
+        if self.alive() {
+            self.reap(true);
+        }
+    }
+}
